@@ -587,6 +587,19 @@ func (e *Env) call(n *ast.CallExpr) Val {
 			return Val{Sort: "Str", Term: name}
 		}
 		return Val{Sort: "Str", Term: fmt.Sprintf("(%s %s)", name, strings.Join(terms, " "))}
+	case "fresh": // fresh(s): the slice/map was allocated by the callee (not aliased with anything that existed before)
+		need(1)
+		v := e.tr(args[0])
+		if v.Ptr != nil {
+			v = e.deref(v, "fresh")
+		}
+		oldA := g.heapGet(e.old, "$alloc")
+		curA := g.heapGet(e.cur, "$alloc")
+		loc := v.Term
+		if _, ok := g.sorts.sliceEl[v.Sort]; ok {
+			loc = fmt.Sprintf("(arr_%s %s)", v.Sort, v.Term)
+		}
+		return Val{Sort: "Bool", Term: fmt.Sprintf("(and (> %s %s) (<= %s %s))", loc, oldA, loc, curA)}
 	case "marshal": // marshal(x): the protobuf encoding of a struct value (same uninterpreted function as the codec model)
 		need(1)
 		v := e.tr(args[0])
